@@ -112,14 +112,9 @@ Print Assumptions C03_only_reported.
          - every Arg of that list that is not as arglist_create left it (a state other than unknown: the node is listed on
            or off; a value: the node is listed with a temperature) belongs to a node whose Arg IN THIS LIST was changed by
            the device half of a pass after the command was created and no later than this pass.
-   (* OPEN *) "changed by the device half of a pass" is not yet "by a setplugstate statement for that node's plug executed
-   by an action of this command".  Missing is a device-layer lemma over post_poll_one (Model/Device.v):
-       post_poll_one ... d store ... = Ok (d', store', _, _) -> arg_find (nth s store' []) n <> arg_find (nth s store []) n ->
-       some iteration of _process_action of this call ran, for the head action act with a_args act = Some s, a
-       SetPlugState / SetResult statement whose node resolves to n  (an OSetState n / OSetResult n observation of
-       Spec/ScriptSem.v in that iteration's trace);
-   Proofs/DeviceSlots.v has only the frame half (SlotRel: lists the queue does not refer to are untouched); the statement-level
-   half is C03_only_reported over the single-client world. *)
+   "Changed by the device half of a pass" is sharpened to "written by a setplugstate / setresult statement executed for an
+   action of THIS command" by C03_device_writes_are_statements (device layer) and C03_end_to_end_reported (all runs) at the
+   end of this file; what is still open is said there. *)
 From PM Require Import Model.Device Model.Daemon Spec.Proto Proofs.DaemonLedger Proofs.DaemonSlots Proofs.DaemonPending Proofs.DaemonE2E.
 From PM Require Proofs.DaemonE2EEx Properties.C07.
 Theorem C03_end_to_end : forall expand_str ranged_sorted ranged_plain sorted rmatch compress short_circuit st0 now plans rs r,
@@ -201,3 +196,231 @@ Example C03_end_to_end_nonvacuous :
 Proof. exact (conj DaemonE2EEx.e2e_boot DaemonE2EEx.query_example). Qed.
 Print Assumptions C03_end_to_end.
 Print Assumptions C03_listed_was_written.
+
+(* ------------------------------------------------------------------------------------------------------------------
+   WHO WRITES A RESULT LIST (Proofs/DeviceWrites.v, Proofs/DaemonE2EWrites.v): "a node is shown on, off or with a value
+   only if during this very query its device reported that for its plug".
+
+   A WRITE EVENT (report) = (result list, client id of the action, device name, setplugstate | setresult, node, interpreted
+   code, text).  The events of a call of Device.post_poll_one (one device's share of dev_post_poll) are computed alongside
+   by pp_reports, a function that only CALLS the model (process_stmt / do_while / pa_step / process_action, one step at a
+   time) and that computes node, code and text of an event with the effect functions of the SPECIFICATION Spec/ScriptSem.v
+   (state_effect / result_effect: capture = sub-match of the device's last expect, node_of = the device's plug table,
+   interp = first matching pattern of the statement). *)
+From PM Require Import Proofs.DeviceInv Proofs.DeviceInvG Proofs.DeviceSlots Proofs.DeviceWrites Proofs.DaemonE2EWrites.
+From PM Require Proofs.DaemonE2EWritesEx Spec.ScriptSem Proofs.ScriptRefine.
+
+(* DEVICE LAYER, any transport behaviour, any pass input: (a) the store after the call is the store before it with the events
+   replayed in order - nothing else changes an Arg; (b) so an Arg that differs was hit by an event for its list and node;
+   (c) every event was produced by an iteration of _process_action's loop of THIS call (dev_reports, spelled out below): the
+   device - same name, plug table and scripts as d - was connected, the HEAD action of its queue carried the event's list
+   (a_args = Some rp_slot) and client id, and the statement on top of that action's context stack was a setplugstate /
+   setresult whose specified effect is (rp_node, rp_code, rp_text); (client id, list) is one of the pairs d's queue refers to *)
+Theorem C03_device_writes_are_statements : forall rmatch compress sc now d store tmo pin d' store' tmo' evs,
+  DInvG compress d -> ArgsCb d -> tmo_pos tmo -> 0 <= dv_retry_count d ->
+  post_poll_one rmatch compress sc now d store tmo pin = Ok (d', store', tmo', evs) ->
+  let ws := pp_reports rmatch compress sc now d store tmo pin in
+  (length store' = length store /\ forall s n, arg_find (nth s store' []) n = replay s n ws (arg_find (nth s store []) n)) /\
+  (forall s n, arg_find (nth s store' []) n <> arg_find (nth s store []) n -> exists w, In w ws /\ rp_slot w = s /\ rp_node w = n) /\
+  (forall w, In w ws -> dev_reports rmatch d w /\ In (rp_client w, rp_slot w) (dslots d) /\ rp_dev w = sd_name (dv d)).
+Proof. exact post_poll_one_writes_are_statements. Qed.
+(* replaying an event, and what "produced by a statement" means, spelled out *)
+Theorem C03_write_events_spelled_out :
+  (forall w a, wr_arg w a = if rp_result w then mkArg (ar_node a) (ar_state a) (rp_code w) (Some (rp_text w))
+                            else mkArg (ar_node a) (rp_code w) (ar_result a) (Some (rp_text w))) /\
+  (forall s n ws oa, replay s n ws oa =
+     fold_left (fun oa w => if (Nat.eqb (rp_slot w) s && text_eqb (rp_node w) n)%bool then option_map (wr_arg w) oa else oa) ws oa) /\
+  (* some iteration of the loop, the device being in state dk *)
+  (forall rmatch d w, dev_reports rmatch d w <->
+     exists dk, same_cfg d dk /\ incl (dslots dk) (dslots d) /\
+       exists act0 rest, dv_acts dk = act0 :: rest /\ connected dk = true /\
+         a_args act0 = Some (rp_slot w) /\ a_client act0 = rp_client w /\ rp_dev w = sd_name (dv dk) /\
+         exists sdk ak storek, sd_plugs sdk = sd_plugs (dv dk) /\ stmt_reports rmatch sdk ak storek w) /\
+  (* the statement on top of the context stack of action a, the device being sd and the lists store *)
+  (forall rmatch sd a store w, stmt_reports rmatch sd a store w <->
+     exists e rest al old,
+       a_exec a = e :: rest /\ a_args a = Some (rp_slot w) /\ a_client a = rp_client w /\ rp_dev w = sd_name sd /\
+       nth_error store (rp_slot w) = Some al /\ arg_find al (rp_node w) = Some old /\
+       ((exists lit pmp smp ints, cur e = Some (SetPlugState lit pmp smp ints) /\ rp_result w = false /\
+           ScriptSem.state_effect rmatch (sd_plugs sd) (c_plugs e) lit pmp smp ints (ScriptSem.mkSst (Some al) (ScriptRefine.model_xm sd))
+             = Some (rp_node w, rp_code w, rp_text w))
+        \/ (exists pmp smp ints, cur e = Some (SetResult pmp smp ints) /\ rp_result w = true /\
+           ScriptSem.result_effect rmatch (sd_plugs sd) pmp smp ints (ScriptSem.mkSst (Some al) (ScriptRefine.model_xm sd))
+             = Some (rp_node w, rp_code w, rp_text w)))) /\
+  (* the sub-matches a script sees: those of the device's last expect *)
+  (forall sd, ScriptRefine.model_xm sd = if sd_xm_used sd then sd_xm sd else None) /\
+  (* setplugstate: the plug is named by the literal of the statement, else by sub-match $plug of the last expect, else it is the
+     first plug of the block; it is a plug of THIS device wired to the node; the text is sub-match $stat; the state is the code
+     of the first pattern of the statement that matches the text, unknown if none does *)
+  (forall rmatch devplugs ps lit pmp smp ints s node code str,
+     ScriptSem.state_effect rmatch devplugs ps lit pmp smp ints s = Some (node, code, str) ->
+     exists pn p,
+       (lit = Some pn \/ (lit = None /\ ScriptSem.capture (ScriptSem.ss_xm s) pmp = Some pn)
+        \/ (lit = None /\ ScriptSem.capture (ScriptSem.ss_xm s) pmp = None /\ ScriptSem.first_name ps = Some pn)) /\
+       In p devplugs /\ pl_name p = pn /\ pl_node p = Some node /\
+       ScriptSem.capture (ScriptSem.ss_xm s) smp = Some str /\ code = ScriptSem.interp rmatch ints str ST_UNKNOWN) /\
+  (* setresult: the plug is named by sub-match $plug only *)
+  (forall rmatch devplugs pmp smp ints s node code str,
+     ScriptSem.result_effect rmatch devplugs pmp smp ints s = Some (node, code, str) ->
+     exists pn p, ScriptSem.capture (ScriptSem.ss_xm s) pmp = Some pn /\ In p devplugs /\ pl_name p = pn /\ pl_node p = Some node /\
+                  ScriptSem.capture (ScriptSem.ss_xm s) smp = Some str /\ code = ScriptSem.interp rmatch ints str RT_UNKNOWN).
+Proof.
+  exact (conj (fun _ _ => eq_refl) (conj (fun _ _ _ _ => eq_refl) (conj (fun _ _ _ => iff_refl _) (conj (fun _ _ _ _ _ => iff_refl _)
+        (conj (fun _ => eq_refl) (conj state_effect_spelled result_effect_spelled)))))).
+Qed.
+(* non-vacuity (Proofs/DaemonE2EWritesEx.v; evaluated): the daemon of C03_end_to_end_nonvacuous, `status n1`, the device answers
+   `on`: in the fifth pass device 0's share of dev_post_poll reports ONE event - list 0, client 1, device d0, a setplugstate,
+   node n1, ST_ON, text "on" - and the list then holds n1 = ON / "on"; the report ledger was empty before that pass *)
+Example C03_device_writes_nonvacuous :
+  DaemonE2EWritesEx.last_pass_reports DaemonE2EEx.query_rounds =
+    Some ([], [mkReport 0 1 (bslit "d0") false (bslit "n1") ST_ON (bslit "on")], [mkReport 0 1 (bslit "d0") false (bslit "n1") ST_ON (bslit "on")],
+          [[mkArg (bslit "n1") ST_ON RT_NONE (Some (bslit "on"))]]).
+Proof. exact DaemonE2EWritesEx.query_reports_example. Qed.
+Print Assumptions C03_device_writes_are_statements.
+Print Assumptions C03_write_events_spelled_out.
+
+(* ALL RUNS of the whole-daemon model from start-up, with a third external ghost next to the ledgers of C03_end_to_end: the
+   REPORT LEDGER R (drun_rep / dstep_rep: the events of the passes' device halves, oldest first; computed by calling the model:
+   spelled out in C03_report_ledger_spelled_out).  In the pass in which a QUERY gets its terminal reply (same run, same pass,
+   same client, same result list `al` as in C03_end_to_end, whose claim about the reply is repeated as query_done):
+     (3) every Arg of the reply's list: a state other than unknown (the node is listed on / off: C03_listed_was_reported) is the
+         state of a SETPLUGSTATE event of THIS list, made for an action of THIS client, for THAT node; a value (printed by a
+         temperature query) is the text of an event of this list, this client, that node; a result other than none is the
+         result of a setresult event of this list, this client, that node;
+     (1) every event of the ledger was produced in one of the passes of the history up to this one: by the device at some index
+         j of the daemon as the client half of that pass left it (dev_reports: C03_write_events_spelled_out), the list existing
+         at that moment, (client id, list) being one of the pairs the device queues refer to, and every client whose command
+         owned the list at that moment being that client;
+     (2) no event is about a list that did not exist before the pass (lists are handed out once, in order: an event of list s
+         was made after the command that owns s was created).
+   Contrapositive: a node whose device could not be reached, timed out, or sent nothing the script's setplugstate accepts has no
+   setplugstate event with state on / off, hence is listed unknown.
+   (* OPEN *) not covered by a theorem:
+     - that the sub-matches a setplugstate / setresult reads (model_xm: those of the device's LAST expect) were captured by an
+       expect of the SAME action, i.e. from bytes the device sent in answer to this query: true when every setplugstate /
+       setresult of a script is preceded by an expect of that script (Spec/SpecCheckSpec.v sub_safe, which C17 checks on
+       every shipped specification; every expect first resets the sub-matches: Script.process_expect), but not derived here
+       from a hypothesis on the scripts - a script that reads $N without an expect of its own would read the sub-matches an
+       EARLIER action left on the device; that an expect consumes bytes read from the device's descriptor is C08 (OExpect);
+     - that the CLIENT half of a pass never emits a command's terminal line (by reading: parse_busy_q). *)
+Theorem C03_end_to_end_reported : forall expand_str ranged_sorted ranged_plain sorted rmatch compress short_circuit st0 now plans rs r,
+  boot compress st0 -> Z.of_nat (length rs) < INT_MAX - 1 ->
+  exists st1 o1, dinit st0 now plans = Ok (st1, o1) /\
+  match drun expand_str ranged_sorted ranged_plain sorted rmatch compress short_circuit st1 rs [] with
+  | Ok (st, _) =>
+    let L := drun_led expand_str ranged_sorted ranged_plain sorted rmatch compress short_circuit st1 rs lzero in
+    let W := drun_wr expand_str ranged_sorted ranged_plain sorted rmatch compress short_circuit st1 rs (winit (dm_store st1)) in
+    let R := drun_rep expand_str ranged_sorted ranged_plain sorted rmatch compress short_circuit st1 rs [] in
+    match cli_post_poll expand_str ranged_sorted ranged_plain sorted st r with
+    | Ok (sta, e1) =>
+      match dev_loop ranged_sorted rmatch compress short_circuit (length (dm_devs sta)) (r_now r) sta O (r_dev r) None [] with
+      | Ok (stb, tmo, e2) =>
+        dstep expand_str ranged_sorted ranged_plain sorted rmatch compress short_circuit st r = Ok (stb, mkDout (e1 ++ e2) tmo) /\
+        let Lb := dstep_led expand_str ranged_sorted ranged_plain sorted rmatch compress short_circuit st r L in
+        let Wb := dstep_wr expand_str ranged_sorted ranged_plain sorted rmatch compress short_circuit st r W in
+        let Rb := dstep_rep expand_str ranged_sorted ranged_plain sorted rmatch compress short_circuit st r R in
+        (* (1) *)
+        (forall w, In w Rb -> pass_of expand_str ranged_sorted ranged_plain sorted rmatch compress short_circuit st1 (rs ++ [r]) w) /\
+        (* (2) *)
+        (forall w, In w R -> (rp_slot w < length (dm_store st))%nat) /\
+        (* (3) *)
+        (forall p x0, nth_error (dm_clients sta) p = Some x0 -> cl_cmd (dc x0) = None -> nth_error (dm_clients stb) p = Some x0) /\
+        forall p x0 k0, nth_error (dm_clients sta) p = Some x0 -> cl_cmd (dc x0) = Some k0 -> is_query (k_com k0) = true ->
+          exists x new, nth_error (dm_clients stb) p = Some x /\ cid x = cid x0 /\
+            cl_out (dc x) = cl_out (dc x0) ++ render new /\
+            (forall toks0, cli_okT x0 toks0 -> cli_okT x (toks0 ++ new)) /\
+            match cl_cmd (dc x) with
+            | Some k => Forall info_tok new /\ k_com k = k_com k0 /\ k_args k = k_args k0
+            | None =>
+                let al := nth (k_args k0) (dm_store stb) [] in
+                query_done ranged_sorted (Lb (cid x0)) (Wb (k_args k0)) (dc x0) (k_com k0) al new /\
+                forall n a, arg_find al n = Some a ->
+                  (ar_state a <> ST_UNKNOWN ->
+                     exists w, In w Rb /\ rp_slot w = k_args k0 /\ rp_client w = cid x0 /\ rp_node w = n /\ rp_result w = false /\ rp_code w = ar_state a) /\
+                  (forall v, ar_val a = Some v ->
+                     exists w, In w Rb /\ rp_slot w = k_args k0 /\ rp_client w = cid x0 /\ rp_node w = n /\ rp_text w = v) /\
+                  (ar_result a <> RT_NONE ->
+                     exists w, In w Rb /\ rp_slot w = k_args k0 /\ rp_client w = cid x0 /\ rp_node w = n /\ rp_result w = true /\ rp_code w = ar_result a)
+            end
+      | _ => False
+      end
+    | _ => False
+    end
+  | _ => False
+  end.
+Proof. exact c03_end_to_end_reported. Qed.
+(* the report ledger and "produced in a pass of the history", spelled out *)
+Theorem C03_report_ledger_spelled_out :
+  forall expand_str ranged_sorted ranged_plain sorted rmatch compress short_circuit,
+  (* a pass appends the events of its device half: those of dev_post_poll on the state the client half returns *)
+  (forall st r R, dstep_rep expand_str ranged_sorted ranged_plain sorted rmatch compress short_circuit st r R =
+     R ++ match cli_post_poll expand_str ranged_sorted ranged_plain sorted st r with
+          | Ok (sta, _) => dl_reports ranged_sorted rmatch compress short_circuit (length (dm_devs sta)) (r_now r) sta O (r_dev r) None
+          | _ => []
+          end) /\
+  (* dev_post_poll from device i on: the events of Device.post_poll_one on device i (pp_reports; same device, store, time-out and
+     transport answer as the model's dev_loop hands it), then those of the devices behind it in the state the model's dev_loop
+     returns after device i's step *)
+  (forall n now st i pins tmo, dl_reports ranged_sorted rmatch compress short_circuit (S n) now st i pins tmo =
+     match nth_error (dm_devs st) i with
+     | None => []
+     | Some d =>
+         pp_reports rmatch compress short_circuit now d (dm_store st) tmo
+                    (fst (with_pre (nth i (dm_pipe st) true) (nth i (dm_tel st) Telnet.telnet_init) (hd passin0 pins)))
+         ++ match dev_loop ranged_sorted rmatch compress short_circuit 1 now st i pins tmo [] with
+            | Ok (st2, tmo', _) => dl_reports ranged_sorted rmatch compress short_circuit n now st2 (S i) (tl pins) tmo'
+            | _ => []
+            end
+     end) /\
+  (forall st rs r R, drun_rep expand_str ranged_sorted ranged_plain sorted rmatch compress short_circuit st (r :: rs) R =
+     match dstep expand_str ranged_sorted ranged_plain sorted rmatch compress short_circuit st r with
+     | Ok (st1, _) => drun_rep expand_str ranged_sorted ranged_plain sorted rmatch compress short_circuit st1 rs
+                               (dstep_rep expand_str ranged_sorted ranged_plain sorted rmatch compress short_circuit st r R)
+     | _ => R
+     end) /\
+  (* w was produced in pass r1 of the history rs that starts in st1: after the passes rs1 before it and the client half of r1 the
+     list exists, (client id, list) is one of the pairs the device queues refer to, every client whose command owns the list is
+     that client, and the device at some index j produced w in its share of this dev_post_poll *)
+  (forall st1 rs w, pass_of expand_str ranged_sorted ranged_plain sorted rmatch compress short_circuit st1 rs w <->
+     exists rs1 r1 rs2, rs = rs1 ++ r1 :: rs2 /\
+       match drun expand_str ranged_sorted ranged_plain sorted rmatch compress short_circuit st1 rs1 [] with
+       | Ok (stk, _) =>
+         match cli_post_poll expand_str ranged_sorted ranged_plain sorted stk r1 with
+         | Ok (stak, _) =>
+             (rp_slot w < length (dm_store stak))%nat /\
+             In (rp_client w, rp_slot w) (aslots (dm_devs stak)) /\
+             (forall x, In x (dm_clients stak) -> cmd_slot x = Some (rp_slot w) -> cid x = rp_client w) /\
+             exists j d, nth_error (dm_devs stak) j = Some d /\ dev_reports rmatch d w
+         | _ => False
+         end
+       | _ => False
+       end).
+Proof.
+  exact (fun _ _ _ _ _ _ _ => conj (fun _ _ _ => eq_refl) (conj (fun _ _ _ _ _ _ => eq_refl) (conj (fun _ _ _ _ => eq_refl) (fun _ _ _ => iff_refl _)))).
+Qed.
+(* the on / off lists and the printed values of the reply (C03_partition, C03_temp_once) read through (3) *)
+Theorem C03_listed_was_reported : forall s c (al : arglist) (R : list report) n,
+  (forall m a, arg_find al m = Some a ->
+     (ar_state a <> ST_UNKNOWN -> exists w, In w R /\ rp_slot w = s /\ rp_client w = c /\ rp_node w = m /\ rp_result w = false /\ rp_code w = ar_state a) /\
+     (forall v, ar_val a = Some v -> exists w, In w R /\ rp_slot w = s /\ rp_client w = c /\ rp_node w = m /\ rp_text w = v) /\
+     (ar_result a <> RT_NONE -> exists w, In w R /\ rp_slot w = s /\ rp_client w = c /\ rp_node w = m /\ rp_result w = true /\ rp_code w = ar_result a)) ->
+  (In n (on_nodes (args_iter al)) ->
+     exists w, In w R /\ rp_slot w = s /\ rp_client w = c /\ rp_node w = n /\ rp_result w = false /\ rp_code w = ST_ON) /\
+  (In n (off_nodes (args_iter al)) ->
+     exists w, In w R /\ rp_slot w = s /\ rp_client w = c /\ rp_node w = n /\ rp_result w = false /\ rp_code w = ST_OFF) /\
+  (forall a v, In a (args_iter al) -> ar_node a = n -> ar_val a = Some v ->
+     exists w, In w R /\ rp_slot w = s /\ rp_client w = c /\ rp_node w = n /\ rp_text w = v).
+Proof. exact listed_was_reported. Qed.
+(* non-vacuity (Proofs/DaemonE2EWritesEx.v; evaluated): `status n1` answered `on` - the ledger goes from [] to the one setplugstate
+   event (list 0, client 1, d0, n1, ST_ON, "on") in the pass that delivers `302 on: n1 ... 103 Query complete`
+   (C03_end_to_end_nonvacuous); `on n1` - a power command: no event at all, the list stays as arglist_create left it *)
+Example C03_end_to_end_reported_nonvacuous :
+  boot C07.ex_compress DaemonE2EEx.e2e_st /\
+  DaemonE2EWritesEx.last_pass_reports DaemonE2EEx.query_rounds =
+    Some ([], [mkReport 0 1 (bslit "d0") false (bslit "n1") ST_ON (bslit "on")], [mkReport 0 1 (bslit "d0") false (bslit "n1") ST_ON (bslit "on")],
+          [[mkArg (bslit "n1") ST_ON RT_NONE (Some (bslit "on"))]]) /\
+  DaemonE2EWritesEx.last_pass_reports DaemonE2EEx.power_rounds = Some ([], [], [], [[mkArg (bslit "n1") ST_UNKNOWN RT_NONE None]]).
+Proof. exact (conj DaemonE2EEx.e2e_boot (conj DaemonE2EWritesEx.query_reports_example DaemonE2EWritesEx.power_reports_example)). Qed.
+Print Assumptions C03_end_to_end_reported.
+Print Assumptions C03_report_ledger_spelled_out.
+Print Assumptions C03_listed_was_reported.
